@@ -83,6 +83,13 @@ const HAND_WRITTEN: &[&str] = &[
     "2020-2030/2 Mo-Fr 09:00-12:00",
     "Jun 15-Aug 31: Mo-Su 09:00-21:00",
     "Mo-Fr 07:30-19:00; Sa 08:00-13:00; Su off",
+    // the same rule twice (a normalizer that deduplicates must keep the order of the survivors)
+    "Mo-Fr 10:00-18:00 ; PH off ; Sa 10:00-12:00 ; PH off",
+    "Mo-Sa 09:00-19:00; Su off; Sa 09:00-13:00; Su off",
+    "Mo-Fr 08:00-12:00 unknown \"a\"; Sa 08:00-10:00; Mo-Fr 08:00-12:00 unknown \"a\"; Su off",
+    // positional weekdays (last / fourth of the month)
+    "Mo[-1] 10:00-12:00",
+    "Su[-1],Su[4] 09:00-13:00; Fr[-1] off",
     // evaluation of these unwinds on the unchanged tree (extended time beyond 48:00 built from a sun event);
     // the pre-screen moves them to the "panicking" pool
     "10:00-12:00,(sunset+06:00)-25:00",
@@ -102,6 +109,8 @@ const HOLIDAY_EXPRS: &[&str] = &[
     "PH +1 day off; Mo-Su 09:00-18:00",
     "PH -1 day 09:00-12:00",
     "SH,PH Mo-Fr 09:00-11:00",
+    "Mo-Su off; PH 10:00-12:00",
+    "PH 08:00-20:00 || off",
 ];
 
 const EASTER_EXPRS: &[&str] = &[
@@ -204,6 +213,9 @@ fn instants() -> Vec<i64> {
         f(2056, 3, 31, 9, 0, 0),
         f(2088, 4, 10, 9, 0, 0),
         f(1992, 4, 18, 9, 0, 0),
+        // the last week of February in a leap year and in a century year that is not one
+        f(2096, 2, 24, 11, 0, 0),
+        f(2100, 2, 22, 11, 0, 0),
     ]
 }
 
